@@ -149,7 +149,8 @@ class Textbook:
 
     CONSTRUCTS = ["row", "frac", "sqrt", "root", "sup", "sub", "subsup", "bigop", "lim", "over", "under", "underover",
                   "multiscripts", "matrix", "cases", "table", "fenced_row", "mfenced", "func", "binom", "enclose", "text_row",
-                  "neg", "factorial", "implied_times", "abs", "mixed", "integral", "semantics", "mstyle", "mpadded", "prime", "frac_bevelled", "seplist", "func_scripted"]
+                  "neg", "factorial", "implied_times", "abs", "mixed", "integral", "semantics", "mstyle", "mpadded", "prime", "frac_bevelled", "seplist", "func_scripted",
+                  "setbuilder"]
 
     def construct(self, depth):
         r = self.rng
@@ -281,6 +282,24 @@ class Textbook:
         if k < 0.3:
             return mrow(mi(r.choice("PQfgA")), mo(r.choice(["=", "∈", "⊂", "∪", "⁡"])), lst)
         return lst
+
+    def c_setbuilder(self, d):
+        """set-builder notation: { x | condition, condition, ... } with 1-4 comma-separated conditions, the bar written as | : or U+2223"""
+        r = self.rng
+        var = mi(r.choice("xyznk"))
+        head = [var] if r.random() < 0.6 else [var.copy(), mo("∈"), mi(r.choice("SAB"))]
+        conds = []
+        for i in range(r.randint(1, 4)):
+            if i:
+                conds.append(mo(","))
+            c = [var.copy() if r.random() < 0.7 else self.operand(d + 1), mo(r.choice(["<", ">", "≠", "≤", "=", "∈"])), self.operand(d + 1)]
+            conds += [mrow(*c)] if r.random() < 0.5 else c
+        bar = mo(r.choice(["|", "|", ":", "∣"]))
+        inner = head + [bar] + conds
+        body = mrow(mo("{"), mrow(*inner), mo("}")) if r.random() < 0.6 else mrow(mo("{"), *inner, mo("}"))
+        if r.random() < 0.3:
+            return mrow(mi(r.choice("ABS")), mo("="), body)
+        return body
 
     def c_abs(self, d):
         return mrow(mo("|"), self.operand(d + 1), mo("|"))
